@@ -309,6 +309,49 @@ func init() {
 					}
 				}
 			}
+			// layout of extreme size: one comment or whitespace run of 70000 bytes between two tokens (streamed through
+			// the real 4096-byte pages and as one piece), and hundreds to thousands of redundant parentheses
+			for k := int64(0); k < 12; k++ {
+				i := n + 1000000 + k
+				if !c.Mine(i) {
+					continue
+				}
+				c.Begin(i)
+				canon := "var x = 7\nprint x + 2 * 3\ndef b { f = x }\n"
+				var variant string
+				switch k {
+				case 0:
+					variant = "var x = 7\n#" + strings.Repeat("c", 70000) + "\nprint x + 2 * 3\ndef b { f = x }\n"
+				case 1:
+					variant = "var x = 7\nprint x +" + strings.Repeat(" ", 70000) + "2 * 3\ndef b { f = x }\n"
+				case 2:
+					variant = "var x = 7\nprint x + 2 * 3\ndef b { f = x }\n#" + strings.Repeat("z", 70000)
+				case 3:
+					variant = "var x = 7\nprint x + 2 * 3\ndef b { f = x }" + strings.Repeat("\t\r\n ", 20000)
+				case 4:
+					variant = strings.Repeat("\n", 66000) + "var x = 7 print x + 2 * 3 def b { f = x }"
+				default:
+					np := []int{100, 1000, 1022, 1023, 1024, 1025, 4000}[k-5]
+					variant = "var x = 7\nprint x + " + strings.Repeat("(", np) + "2" + strings.Repeat(")", np) + " * 3\ndef b { f = " + strings.Repeat("(", np) + "x" + strings.Repeat(")", np) + " }\n"
+				}
+				base := compileAndRun([]byte(canon))
+				got := compileAndRun([]byte(variant))
+				c.Eval(2)
+				if d := diffCompiled(base, got); d != "" || got.pan != "" {
+					c.Violation("layout-changes-meaning:extreme-layout", fmt.Sprintf("a rendering with layout of extreme size (variant %d) differs: %s %s", k, d, got.panWhat), map[string]any{"variant": k})
+					continue
+				}
+				sc := mon.NewScript("in", []byte(variant), nil) // real 4096-byte reads
+				var lg2, out2 mon.LockedWriter
+				fp, ferr := bcl.ParseFile(sc, bcl.OptLogger(&lg2), bcl.OptOutput(&out2))
+				c.Eval(1)
+				if ferr != nil || !bytes.Equal(bcl.VerifProgParts(fp).Code, base.code) {
+					c.Violation("layout-changes-meaning:extreme-layout", fmt.Sprintf("a rendering with layout of extreme size (variant %d) read through 4096-byte pages: err=%v log=%q", k, ferr, core.Trunc(lg2.String(), 300)), map[string]any{"variant": k})
+					continue
+				}
+				c.Count("extreme_layout_renderings", 1)
+				c.Nontrivial(core.Hash("extreme", k))
+			}
 			// string contents are not layout
 			base := n
 			ns := int64(c.Pick(6000, 100000))
@@ -646,6 +689,8 @@ func init() {
 				cfg := randProfile(r)
 				cfg.ErrPct = 25
 				cfg.CompileErrPct = 10
+				cfg.BadNamePct = 3
+				cfg.BadLitPct = 1
 				g := lang.NewGen(r, cfg)
 				p := g.Program()
 				toks := lang.Flatten(p)
